@@ -397,6 +397,7 @@ func checkVerifyArgs(p *an.Prog, r *an.Run, a *authCtx, ep *Endpoint, g ssa.Call
 						continue
 					}
 					cleared := false
+					var clears []*ssa.Store
 					an.AllInstrs(ep.Fn, func(in ssa.Instruction) {
 						st, isSt := in.(*ssa.Store)
 						if !isSt || noSucc[st.Block()] {
@@ -412,6 +413,50 @@ func checkVerifyArgs(p *an.Prog, r *an.Run, a *authCtx, ep *Endpoint, g ssa.Call
 						}
 						if c, isC := st.Val.(*ssa.Const); isC && (c.IsNil() || c.Value == nil) {
 							cleared = true
+							clears = append(clears, st)
+						}
+					})
+					// ... and nothing read the field before it is cleared: a copy taken ahead of the fallback keeps the
+					// unsigned data alive past the clearing
+					an.AllInstrs(ep.Fn, func(in ssa.Instruction) {
+						ld, isLd := in.(*ssa.UnOp)
+						if !isLd || ld.Op != token.MUL {
+							return
+						}
+						fv := an.FieldOf(ld.X)
+						if fv == nil || fv.Name() != fname {
+							return
+						}
+						root, _ := an.RootPath(ld.X)
+						if an.Unspill(&ssa.UnOp{Op: token.MUL, X: root}) != ssa.Value(ex) {
+							return
+						}
+						for _, cs := range clears {
+							cs := cs
+							if an.PathAvoiding(ep.Fn, ld, nil, func(x ssa.Instruction) bool { return x == ssa.Instruction(cs) }, nil) == nil {
+								continue
+							}
+							// ... and what was read is still in use past the clearing (a log line ahead of it is not)
+							uses := map[ssa.Instruction]bool{}
+							seenV := map[ssa.Value]bool{}
+							var fwd func(v ssa.Value)
+							fwd = func(v ssa.Value) {
+								if seenV[v] || v.Referrers() == nil {
+									return
+								}
+								seenV[v] = true
+								for _, ref := range *v.Referrers() {
+									uses[ref] = true
+									if rv, ok := ref.(ssa.Value); ok {
+										fwd(rv)
+									}
+								}
+							}
+							fwd(ld)
+							if hit := an.PathAvoiding(ep.Fn, cs, nil, func(x ssa.Instruction) bool { return uses[x] }, nil); hit != nil {
+								bad = append(bad, "field "+fname+" of "+ex.Name()+" is read at "+p.Pos(ld.Pos())+" before the fallback clears it at "+p.Pos(cs.Pos())+" and what was read is still used at "+p.Pos(hit.Pos())+": the copy keeps the part of the request nothing signed")
+								return
+							}
 						}
 					})
 					if !cleared {
@@ -1108,6 +1153,55 @@ func checkVerifyMethod(p *an.Prog, r *an.Run, typ string, v, h *ssa.Function) {
 	if normalises && !(legacy[27] && legacy[28]) {
 		bad = append(bad, "the legacy recovery byte is normalised (v -= 27) but not for both legacy values 27 and 28: a wallet signature in the 27/28 form with the unrecognised value is refused although correctly signed")
 	}
+	// (c) the signature text reaches the hex decoder either whole or with an exact prefix cut off (s[k:], TrimPrefix):
+	// a character-set trim or any other rewriting of the text changes the digits of some correctly made signatures
+	an.AllInstrs(v, func(in ssa.Instruction) {
+		call, ok := in.(*ssa.Call)
+		if !ok || !an.IsFunc(an.CallObj(call), "encoding/hex", "DecodeString") || len(call.Call.Args) != 1 {
+			return
+		}
+		seen := map[ssa.Value]bool{}
+		var walk func(x ssa.Value)
+		walk = func(x ssa.Value) {
+			if seen[x] {
+				return
+			}
+			seen[x] = true
+			switch t := x.(type) {
+			case *ssa.Parameter, *ssa.Const:
+			case *ssa.Phi:
+				for _, e := range t.Edges {
+					walk(e)
+				}
+			case *ssa.Slice:
+				if t.High != nil || t.Max != nil {
+					bad = append(bad, "the signature text is cut at its end ("+p.Pos(t.Pos())+") before hex decoding")
+				}
+				walk(t.X)
+			case *ssa.Call:
+				f := an.CallObj(t)
+				if an.IsFunc(f, "strings", "TrimPrefix") || an.IsFunc(f, "strings", "TrimSpace") || an.IsFunc(f, "strings", "ToLower") || an.IsFunc(f, "strings", "ToUpper") {
+					// exact prefix removal; surrounding blanks and letter case do not change any hex digit
+					walk(t.Call.Args[0])
+					return
+				}
+				fromSig := false
+				for _, a := range t.Call.Args {
+					if p.Derives(1, a).HasParam(sigParam) {
+						fromSig = true
+					}
+				}
+				if fromSig {
+					nm := "a call"
+					if f != nil {
+						nm = f.FullName()
+					}
+					bad = append(bad, "the signature text is rewritten by "+nm+" at "+p.Pos(t.Pos())+" before hex decoding: only an exact prefix may be removed (s[k:] or strings.TrimPrefix), anything else alters the digits of some correctly made signatures")
+				}
+			}
+		}
+		walk(call.Call.Args[0])
+	})
 	r.Check(len(bad) == 0, "verify-crypto", name, v.Pos(), "nil is returned only under the cryptographic check of (identity, hash(), signature)", "%s", strings.Join(bad, "; "))
 }
 
